@@ -36,14 +36,19 @@ MinTick(nl) == CHOOSE m \in TicksOf(nl) : \A u \in TicksOf(nl) : m <= u
 
 (***************************** C02 *****************************************)
 C02V(r) ==
+  \* (kind "same": the note list of a re-parse of a text whose only difference is padding in the song name, compared with
+  \*  the parse of the same section that was judged in full)
+  IF r.kind = "same" THEN FirstFail(<< <<"same-notes-whatever-the-position-of-the-section-in-the-file", r.a = r.b>> >>) ELSE
   LET nl == r.nl  ob == r.notes IN
   IF ~WellFormedTrack(nl) THEN Skip("not-well-formed")
-  ELSE IF nl # <<>> /\ ForcedAt(nl, MinTick(nl)) THEN Skip("forced-first-note")
+  ELSE IF r.first /\ nl # <<>> /\ ForcedAt(nl, MinTick(nl)) THEN Skip("forced-first-note")
   ELSE IF r.raised # "" THEN <<"fail", "well-formed-section-rejected">>
   ELSE FirstFail(<<
     <<"one-event-per-tick",  Len(ob) = Cardinality(TicksOf(nl))>>,
     <<"ticks-are-the-written-ticks", ObsTicks(ob) = TicksOf(nl)>>,
     <<"strictly-increasing", \A k \in 1..(Len(ob) - 1) : ob[k].t < ob[k+1].t>>,
+    \* (long tracks are judged in windows: p is the position in the whole observed list, pmin the last position of earlier windows)
+    <<"strictly-increasing-across-windows", \A k \in DOMAIN ob : ob[k].p > r.pmin /\ (k > 1 => ob[k-1].p < ob[k].p)>>,
     <<"lanes-as-written",    \A k \in DOMAIN ob : ob[k].t \in TicksOf(nl) => LaneSet(ob[k]) = LanesAt(nl, ob[k].t)>>
   >>)
 
